@@ -9,7 +9,7 @@ the wires by *ring* distance (today it does not: known finding F7)."""
 from ..facts import AnchorMissing
 from .. import funeval
 from ..finite import eval_poly
-from ..guards import analysis
+from ..guards import analysis, closure_info as closure_info_
 from ..sym import Sym, Poly, forward_paths, path_atoms
 from ..terms import strip, unmut, short, cname, walk
 
@@ -358,8 +358,22 @@ def run(prog, tier, res):
         I, J = Poly.sym("arg2"), Poly.sym("arg3")
         one_ = Poly.const(1)
 
-        def shift(p):
-            return p.subs_poly("arg2", I + one_).subs_poly("arg3", J + one_) if set(p.syms()) <= {"arg2", "arg3"} else None
+        def shift(p, depth=0):
+            """p with (i, j) -> (i+1, j+1); comparison flags inside p must themselves be shift-invariant; None if p
+            mentions anything else"""
+            q = p
+            for s_ in p.syms():
+                if s_ in ("arg2", "arg3"):
+                    continue
+                if s_ in sym_a.b2i and depth < 3:
+                    op_, pa_, pb_ = sym_a.b2i[s_]
+                    d_ = pa_ - pb_
+                    sd = shift(d_, depth + 1)
+                    if sd is None or not (sd == d_):
+                        return None
+                    continue
+                return None
+            return q.subs_poly("arg2", I + one_).subs_poly("arg3", J + one_)
 
         def swap(p):
             if not set(p.syms()) <= {"arg2", "arg3"}:
@@ -423,7 +437,162 @@ def run(prog, tier, res):
             else:
                 res.hit(R8)
         res.oblige(nb == 0, "finite-eval")
+    # ------------------------------------------------------------------ R9: the seam merge of contiguous_ranges
+    R9 = res.rule("C13.R9", "contiguous_ranges merges the first and the last block exactly when there are at least two blocks, the first starts at wire 0 and the last ends at wire 256; the merged block is (start of the last, end of the first)", 3)
+    bc = prog.body(CONTIG)
+    anc = analysis(prog, bc)
+    res.functions.add(CONTIG)
+    wc = bc.where()
+    pops = [(bb, t) for bb, t in bc.calls() if short(cname(t)) == "Vec::<T, A>::pop"]
+    srs = [(bb, t) for bb, t in bc.calls() if short(cname(t)) == "Vec::<T, A>::swap_remove"]
+    if len(pops) != 1 or len(srs) != 1:
+        res.violate(R9, CONTIG, "merge-shape", "the seam merge is not one pop() of the last block and one swap_remove(0) of the first (found %d / %d)" % (len(pops), len(srs)), wc, kind="undecided")
+    else:
+        pbb = pops[0][0]
+        from ..guards import as_cmp, truth_of
+        len_ok = first_ok = last_ok = None
+        others = []
+        for (d, rel, vals) in anc.atoms_at(pbb):
+            d0 = strip(d)
+            txt = str(d0)
+            c = as_cmp(d0, True) if d0[0] in ("bin", "un", "call") else None
+            tr = truth_of(rel, vals)
+            if c is not None and tr is not None and "Vec::<T, A>::len" in txt and not any(x[0] == "var" for x in walk(d0)):
+                # a comparison of the number of blocks with a constant: evaluate it for 0..6 blocks
+                op, a, b = c
+                sa, sb = strip(a), strip(b)
+                def val(x, n):
+                    if x[0] == "const":
+                        return x[1]
+                    if x[0] == "call" and short(x[1]) in ("Vec::<T, A>::len", "<impl [T]>::len"):
+                        return n
+                    return None
+                tbl = []
+                for n in range(0, 7):
+                    va, vb = val(sa, n), val(sb, n)
+                    if va is None or vb is None:
+                        tbl = None
+                        break
+                    r = {"Eq": va == vb, "Ne": va != vb, "Lt": va < vb, "Le": va <= vb, "Gt": va > vb, "Ge": va >= vb}[op]
+                    tbl.append(r == tr)
+                if tbl is not None:
+                    len_ok = tbl if len_ok is None else [x and y for x, y in zip(len_ok, tbl)]
+                    continue
+            if d0[0] == "field" and rel == "in" and "<impl [T]>::first" in txt and d0[2] == 0:
+                first_ok = sorted(vals) == [0]
+                continue
+            if d0[0] == "field" and rel == "in" and "<impl [T]>::last" in txt and d0[2] == 1:
+                last_ok = sorted(vals) == [WIRES]
+                continue
+            if d0[0] == "discr" or (d0[0] == "bin" and any(x[0] == "var" for x in walk(d0))):
+                continue        # Some(..) tests of first()/last(), the scan loop's exit condition
+            others.append(txt[:100])
+        want_len = [n >= 2 for n in range(0, 7)]
+        if len_ok is None:
+            # first() and last() of a one-block list are the same block: (0, _) and (_, 256) then is the full ring,
+            # which must not be merged with itself -> the count guard is needed
+            len_ok = [n >= 1 for n in range(0, 7)]
+        if len_ok == want_len:
+            res.hit(R9)
+        else:
+            res.violate(R9, CONTIG, "merge-count", "the first and last block are merged when the number of blocks n satisfies %s; the ring needs the merge exactly for n >= 2 "
+                        "(a lone block is left alone, two blocks that touch the seam are one block)" % ([n for n in range(7) if len_ok[n]],), wc)
+        if first_ok and last_ok and not others:
+            res.hit(R9)
+        else:
+            res.violate(R9, CONTIG, "merge-seam", "the merge is not guarded by exactly `first block starts at wire 0` and `last block ends at wire 256` (first: %s, last: %s, other guards: %s)" % (first_ok, last_ok, others[:2]), wc)
+        # merged block = (pop().0, swap_remove(0).1)
+        pushes = [(bb, t) for bb, t in bc.calls() if short(cname(t)) == "Vec::<T, A>::push" and bc.dominates(pbb, bb)]
+        mk = False
+        if len(pushes) == 1:
+            arg = strip(anc.terms.operand(pushes[0][1]["args"][1]))
+            if arg[0] == "aggr" and len(arg[2]) == 2:
+                a0, a1 = strip(arg[2][0]), strip(arg[2][1])
+                def src(x, idx):
+                    if x[0] == "field" and x[2] == idx:
+                        y = strip(x[1])
+                        if y[0] == "call" and short(y[1]) in ("Option::<T>::unwrap", "Option::<T>::expect"):
+                            y = strip(y[2][0])
+                        if y[0] == "call":
+                            return short(y[1]), y
+                        # a binding of the `Some(&(a, b))` pattern that guards the merge: the same element, read
+                        # through first()/last() before the list is modified
+                        if y[0] == "field" and y[2] == 0 and strip(y[1])[0] == "downcast":
+                            y = strip(y[1])
+                        if y[0] == "downcast" and strip(y[1])[0] == "call":
+                            return short(strip(y[1])[1]), strip(y[1])
+                    return None, None
+                s0, y0 = src(a0, 0)
+                s1, y1 = src(a1, 1)
+                zero = y1 is not None and len(y1[2]) == 2 and strip(y1[2][1]) == ("const", 0, "usize")
+                order = bc.dominates(pbb, srs[0][0]) and pbb != srs[0][0]      # pop() first: swap_remove(0) moves the last block to the front
+                sr0 = strip(anc.terms.operand(srs[0][1]["args"][1])) == ("const", 0, "usize")
+                mk = order and sr0 and ((s0 == "Vec::<T, A>::pop" and s1 == "Vec::<T, A>::swap_remove" and zero) or
+                                        (s0 in ("Vec::<T, A>::pop", "<impl [T]>::last") and s1 in ("Vec::<T, A>::swap_remove", "<impl [T]>::first") and (s1 != "Vec::<T, A>::swap_remove" or zero)))
+        if mk:
+            res.hit(R9)
+        else:
+            res.violate(R9, CONTIG, "merge-value", "the merged block is not (start of the popped last block, end of the removed first block)", wc)
+
+    # ------------------------------------------------------------------ R10: hit lists are only reordered by amplitude
+    R10 = res.rule("C13.R10", "match_column_inputs: the wire and pad hit lists of a time bin are modified only by a descending sort on the amplitude before they are zipped (no truncation / filtering that depends on the row order)", 2)
+    MCI = M + "match_column_inputs"
+    bm = prog.body(MCI)
+    anm = analysis(prog, bm)
+    res.functions.add(MCI)
+    lists = {}
+    for bb, t in bm.calls():
+        if cname(t) in (M + "wire_hits_at_t", M + "pad_hits_at_t") and t.get("dest") and not t["dest"]["pr"]:
+            lists[t["dest"]["l"]] = short(cname(t))
+    if len(lists) != 2:
+        raise AnchorMissing("hit lists of match_column_inputs")
+    # mutable borrows of the two lists
+    mut_refs = {}
+    for bi, si, st in bm.stmts():
+        if st["k"] == "assign" and st["rv"]["k"] == "ref" and st["rv"].get("m") and st["rv"]["p"]["l"] in lists and not st["rv"]["p"]["pr"] and not st["p"]["pr"]:
+            mut_refs[st["p"]["l"]] = st["rv"]["p"]["l"]
+    sorted_lists = set()
+    for bb, t in bm.calls():
+        s_ = short(cname(t))
+        args = t["args"]
+        srcs = [a["p"]["l"] for a in args if a.get("k") in ("move", "copy") and not a["p"]["pr"]]
+        for l in srcs:
+            if l in mut_refs:
+                lst = mut_refs[l]
+                if s_ in ("DerefMut::deref_mut",):
+                    if t.get("dest") and not t["dest"]["pr"]:
+                        # the reborrow of the slice: track it to its consumer
+                        for bi, si, st in bm.stmts():
+                            if st["k"] == "assign" and st["rv"]["k"] == "ref" and st["rv"]["p"]["l"] == t["dest"]["l"] and not st["p"]["pr"]:
+                                mut_refs[st["p"]["l"]] = lst
+                        mut_refs[t["dest"]["l"]] = lst
+                    continue
+                if s_ in ("<impl [T]>::sort_unstable_by", "<impl [T]>::sort_by"):
+                    ci = closure_info_(prog, anm, anm.terms.operand(args[1]))
+                    desc = False
+                    if ci:
+                        from ..guards import closure_ret
+                        rets = closure_ret(prog, ci[0])
+                        if len(rets) == 1:
+                            r = strip(rets[0])
+                            if r[0] == "call" and short(r[1]) in ("Option::<T>::unwrap", "Option::<T>::expect"):
+                                r = strip(r[2][0])
+                            if r[0] == "call" and short(r[1]).endswith("partial_cmp") and len(r[2]) == 2:
+                                x, y = strip(r[2][0]), strip(r[2][1])
+                                # descending: (second argument).amplitude compared with (first argument).amplitude
+                                desc = x[0] == "field" and y[0] == "field" and x[2] == y[2] == 1 and strip(x[1]) == ("param", 3) and strip(y[1]) == ("param", 2)
+                    if desc:
+                        sorted_lists.add(lst)
+                        res.hit(R10)
+                    else:
+                        res.violate(R10, MCI, "sort-key:%s" % lists[lst], "the hits of %s are not sorted by descending amplitude" % lists[lst], bm.where(bb))
+                    continue
+                res.violate(R10, MCI, "mutation:%s:%s" % (lists[lst], s_), "the hit list returned by %s is modified by `%s` before matching: which hits survive then depends on the "
+                            "order in which rows/wires were scanned, which the rotation / mirror reverses" % (lists[lst], s_), bm.where(bb))
+    for l, nm_ in lists.items():
+        if l not in sorted_lists and not any(v.key().startswith("C13.R10|%s|" % MCI) for v in res.violations):
+            res.violate(R10, MCI, "unsorted:%s" % nm_, "the hits of %s are matched without the amplitude sort" % nm_, bm.where())
     res.undecided = ["bit-identical equivariance of the floating-point kernels (Cholesky solve, greedy deconvolution, matching by sorted amplitude)",
-                     "contiguous_ranges: the seam merge itself (loop over occupancy patterns)",
+                     "contiguous_ranges: the scan loop that finds the blocks (the seam merge that follows it is R9)",
                      "mirror image of the three-row centroid in pad_hits_at_t (sliding window over rows)"]
     res.assumptions = ["rotation by k pad columns is k applications of the one-column rotation checked here"]
